@@ -68,8 +68,8 @@ func buildPlan(seed uint64, n int, tier string, search bool) []wo.FaultInput {
 		{ID: 1, Iface: "eth0", TS: 1700000400, NV4: 1, NV6: 0, Drops: 0},
 	}
 	scens := []scen{
-		{nil, wo.WriteOut{ID: 0, Iface: "eth0", TS: 1700000100, NV4: 2, NV6: 1, Drops: 3}},   // first write-out ever
-		{base, wo.WriteOut{ID: 2, Iface: "eth0", TS: 1700000700, NV4: 1, NV6: 1, Drops: 2}}, // existing day, new totals
+		{nil, wo.WriteOut{ID: 0, Iface: "eth0", TS: 1700000100, NV4: 2, NV6: 1, Drops: 3}},            // first write-out ever
+		{base, wo.WriteOut{ID: 2, Iface: "eth0", TS: 1700000700, NV4: 1, NV6: 1, Drops: 2}},           // existing day, new totals
 		{base, wo.WriteOut{ID: 2, Iface: "eth0", TS: 1700000700, NV4: 1, NV6: 0, Drops: 0, Bulk: 44}}, // compressed columns
 	}
 	extra := 0
